@@ -232,7 +232,13 @@ def run_case(case):
 
 def run_connect_case(w, expect):
     """expect = ('connect', latency or None, refusals)"""
-    _, latency, refusals = expect
+    _, latency, refusals = expect[:3]
+    how = expect[3] if len(expect) > 3 else "refused"
+    import socket as _socket
+    exc = {"refused": None, "unreachable": OSError(113, "sim: no route to host"),
+           "netdown": OSError(101, "sim: network is unreachable"),
+           "dns": _socket.gaierror(-3, "sim: temporary failure in name resolution"),
+           "timeout": TimeoutError(110, "sim: connection timed out")}[how]
     L = w.loop
     w.net.auto = None
     w.console.auto = True
@@ -248,7 +254,7 @@ def run_connect_case(w, expect):
         if w.net.pending:
             if n_ref < refusals:
                 n_ref += 1
-                w.net.resolve(False)
+                w.net.resolve(False, exc=exc)
                 continue
             if latency:
                 target = latency
@@ -265,7 +271,7 @@ def run_connect_case(w, expect):
             break
         L.advance_to(nd)
     L.settle()
-    label = f"at{w.gen} connect latency={expect[1]} refusals={refusals}"
+    label = f"at{w.gen} connect latency={expect[1]} failed attempts={refusals} ({how})"
     if not w.init_result:
         return f"{label}: init() never returned"
     st, val, t = w.init_result[0]
@@ -358,7 +364,8 @@ def cases(gen, tier):
     for lat in (None, 1.0, 5.0 - EPS, 5.0 + EPS):
         out.append((gen, inst, {}, ("connect", lat, 0)))
     for ref in (1, 2, 3):
-        out.append((gen, inst, {}, ("connect", None, ref)))
+        for how in ("refused", "unreachable", "netdown", "dns", "timeout"):
+            out.append((gen, inst, {}, ("connect", None, ref, how)))
     for lat in (0.5, 2.0 - EPS, 2.0, 2.0 + EPS, 3.0, 4.0 + EPS, 5.0 - EPS, 5.0 + EPS, 7.0):
         out.append((gen, inst, {}, ("slow-connect", lat)))
     return out
